@@ -123,7 +123,34 @@ class Bump(Contract):
         }
 
 
-CONTRACTS = [MinNeeds(), Bump()]
+class BumpAnyInputs(Contract):
+    """The statement quantifies over ARBITRARY feed / biofuel / demand / availability series: also when a series
+    already sits above its demand schedule (the hand-off tolerances allow that by a hair) the adjustment must not
+    lower it, and must not raise it any further."""
+    prop = "C18"
+    file = PARAMS
+    func = "Parameters.increase_biofuels_then_feed"
+    name = "bump, inputs not assumed within their schedules"
+
+    def inputs(self, S):
+        N = S.int("N")
+        S.assume(N >= 1)
+        a = {k: S.series(k, N) for k in ("biofuel", "feed", "increase", "max_biofuel", "max_feed", "crops")}
+        S.forall(N, lambda i: And(a["biofuel"][i] >= 0, a["feed"][i] >= 0, a["increase"][i] >= 0, a["crops"][i] >= 0,
+                                  a["max_biofuel"][i] >= 0, a["max_feed"][i] >= 0))
+        a["N"] = N
+        a["args"] = [S.obj(PARAMS, "Parameters"), a["biofuel"], a["feed"], a["increase"], a["max_biofuel"], a["max_feed"], a["crops"]]
+        return a
+
+    def ensures(self, S, a, res):
+        i = S.idx("i", a["N"])
+        nb, nf = res[0], res[1]
+        return {"biofuel_never_lowered": nb[i] >= a["biofuel"][i], "feed_never_lowered": nf[i] >= a["feed"][i],
+                "biofuel_not_raised_above_demand": nb[i] <= Max(a["biofuel"][i], a["max_biofuel"][i]),
+                "feed_not_raised_above_demand": nf[i] <= Max(a["feed"][i], a["max_feed"][i])}
+
+
+CONTRACTS = [MinNeeds(), Bump(), BumpAnyInputs()]
 TRUSTED = [
     "machine floats treated as mathematical reals (DESIGN 2.2)",
     "numpy element-wise models: minimum, maximum, where, zeros, zeros_like, array, arithmetic (npmodel.py)",
